@@ -1406,6 +1406,7 @@ func (c *connection) Join(conn net.Conn, id string, dial gen.NetworkDial, tail [
 
 	c.wg.Add(1)
 	go func() {
+		idle := 0
 		if lib.Trace() {
 			defer c.log.Trace("connection %s left the pool", conn.RemoteAddr().String())
 		}
@@ -1415,9 +1416,16 @@ func (c *connection) Join(conn net.Conn, id string, dial gen.NetworkDial, tail [
 			c.log.Trace("joined new connection %s to the pool", conn.RemoteAddr().String())
 		}
 
-		c.serve(pi.connection, tail)
+		if received := c.serve(pi.connection, tail); received > 0 {
+			idle = 0
+		} else {
+			// closed by the peer before it sent anything
+			idle++
+		}
 
-		if dial != nil {
+		// do not re-dial forever if the peer keeps closing the re-dialed link
+		// right away (it has dropped this connection, but keeps running)
+		if dial != nil && idle < 3 {
 			pool_dsn := []string{}
 			pool_dsn = append(pool_dsn, c.pool_dsn...)
 			rand.Shuffle(len(pool_dsn), func(i, j int) {
@@ -1475,7 +1483,8 @@ func (c *connection) Terminate(reason error) {
 	}
 }
 
-func (c *connection) serve(conn net.Conn, tail []byte) {
+// serve reads the frames from the link until it is closed. Returns the number of received frames.
+func (c *connection) serve(conn net.Conn, tail []byte) int {
 
 	recvN := 0
 	recvNQ := len(c.recvQueues)
@@ -1495,21 +1504,21 @@ func (c *connection) serve(conn net.Conn, tail []byte) {
 			}
 			lib.ReleaseBuffer(buf)
 			conn.Close()
-			return
+			return recvN
 		}
 
 		if buf.B[0] != protoMagic {
 			c.log.Error("recevied malformed packet from %s (incorrect proto)", conn.RemoteAddr())
 			lib.ReleaseBuffer(buf)
 			conn.Close()
-			return
+			return recvN
 		}
 
 		if buf.B[1] != protoVersion {
 			c.log.Error("recevied malformed packet from %s (incorrect proto version)", conn.RemoteAddr())
 			lib.ReleaseBuffer(buf)
 			conn.Close()
-			return
+			return recvN
 		}
 
 		recvN++
